@@ -124,7 +124,7 @@ func (d *driver) scribbleNow() {
 	}
 }
 
-func (d *driver) ipFrame(src, key, ipn string) []byte {
+func (d *driver) ipFrame(src, key, ipn string, variant int) []byte {
 	u := d.u
 	smac := u.MAC(src)
 	ip := u.IP(ipn)
@@ -141,7 +141,7 @@ func (d *driver) ipFrame(src, key, ipn string) []byte {
 	}
 	if ip.Is4() {
 		dst := u.Cfg.RouterIP
-		switch d.rng.Intn(8) {
+		switch variant % 8 {
 		case 0:
 			return pad(vh.FrameIP4UDP(smac, vh.RouterMAC, ip, dst, 40000+uint16(d.rng.Intn(1000)), 123, []byte("ntp-ish payload")))
 		case 1:
@@ -179,7 +179,7 @@ func (d *driver) ipFrame(src, key, ipn string) []byte {
 			return pad(vh.FrameIP4UDP(smac, vh.Bcast, ip, netip.MustParseAddr("255.255.255.255"), 5000, 6000, []byte{1, 2, 3}))
 		}
 	}
-	switch d.rng.Intn(4) {
+	switch variant % 4 {
 	case 0:
 		return pad(vh.FrameIP6UDP(smac, vh.AllNodesM6, ip, vh.AllNodes6, 5353, 5353, make([]byte, 12)))
 	case 1: // hop-by-hop extension header in front of an ICMPv6 message (MLD style)
@@ -320,7 +320,13 @@ func (d *driver) step(a action) (rec map[string]interface{}) {
 	case "ip", "arp", "fip", "farp":
 		var b []byte
 		if a.s("a") == "ip" || a.s("a") == "fip" {
-			b = d.ipFrame(a.s("src"), a.s("key"), a.s("ip"))
+			// the frame variant is part of the recorded step, so that a replay sends the same kind of frame
+			variant := d.rng.Intn(8)
+			if _, ok := a["v"]; ok {
+				variant = a.i("v")
+			}
+			rec["v"] = variant
+			b = d.ipFrame(a.s("src"), a.s("key"), a.s("ip"), variant)
 		} else {
 			b = d.arpFrame(a.s("src"), a.s("key"), a.s("ip"))
 		}
